@@ -237,5 +237,6 @@ def run(chk):
     ok = any(e.recv == SELF for e in T.calls("outlay"))
     chk.ob("C05.R8", ok, CORE, "SecurityBase.transact", "booking-uses-probed-cost", "the cost booked by a trade is computed by the same outlay() the sizing probed", where=T.fn.where)
     core_rules.transact_rules(chk, "C05")
+    core_rules.security_update(chk, "C05")  # the unit price the sizing works with is today's quote (a price kept from an earlier date sizes and books the trade at a stale price)
     core_rules.refresh_before_trade(chk, "C05")
     settings_reach_every_node(chk)
